@@ -482,6 +482,15 @@ def stream_fsm(ctx):
             and any(isinstance(s_, ast.Return) and s_.value is not None and 'BAD_STATE' in norm(s_.value) for s_ in first.body)
         R.check(got == want and refusal_ok, rule, f'bumble.avdtp.Stream.{name}', f'refused with BAD_STATE unless state in {sorted(want)}, before any effect; refusal changes nothing',
                 f'{name} accepts the command in states {sorted(got) if got else "?"} (required: {sorted(want)}) or its refusal path has effects', p.loc(m))
+    # a second Set Configuration for an endpoint in use is refused before a new stream replaces the live one
+    psc = p.find('bumble.avdtp.Protocol.on_set_configuration_command')
+    if psc is None:
+        R.bad(rule, 'bumble.avdtp.Protocol.on_set_configuration_command', 'anchor missing')
+    else:
+        mk = [c for c in calls_in(psc) if dotted(c.func) == 'Stream']
+        g = [(norm(t), pol) for c in mk for t, pol in paths.flat_guards(c)]
+        R.check(len(mk) == 1 and ('endpoint.in_use', False) in g and ('endpoint is None', False) in g, rule, 'bumble.avdtp.Protocol.on_set_configuration_command | endpoint in use', 'a new stream is created only for an existing endpoint that is not in use (SEP_IN_USE otherwise)',
+                'Set Configuration for an endpoint that already has a configured/open/streaming stream creates a fresh (idle) stream in its place: the command is accepted and the two ends disagree about the stream state', p.loc(psc))
     R.check(n >= 8, rule, 'bumble.avdtp.Stream | command handlers', f'{n} acceptor-side command handlers', f'only {n} command handlers found')
 
 
